@@ -98,6 +98,12 @@ def run_schedule(scn_def, schedule, keep_log=False):
     sim = simnet.Sim(scn)
     simnet.CURRENT = sim
     schedmod.ACTIVE = sched
+    # scheduled runs use the library's OWN masking-key source (the oracle unmasks with the key found in each frame),
+    # so that the code behind it is executed - and preempted - like the rest of a send
+    import lomond.frame
+    sim_masking = lomond.frame.make_masking_key
+    if simnet.ORIG_MAKE_MASKING_KEY is not None:
+        lomond.frame.make_masking_key = simnet.ORIG_MAKE_MASKING_KEY
     try:
         ws = simnet.make_ws(scn)
         gen = ws.connect(**copts)
@@ -175,6 +181,7 @@ def run_schedule(scn_def, schedule, keep_log=False):
     finally:
         scn.pop("_send_hook", None)
         scn.pop("_idle_hook", None)
+        lomond.frame.make_masking_key = sim_masking
         simnet.CURRENT = None
         schedmod.ACTIVE = None
         gc.enable()
